@@ -1,7 +1,7 @@
 (* C07  The share field is the integers mod 2^128+12451 with one canonical encoding.  Statements only. *)
 From Coq Require Import ZArith Znumtheory NArith List Field.
 Import ListNotations.
-From StarV Require Import Params Bytes Fp Primality FieldFacts ShamirFacts.
+From StarV Require Import Params Bytes Fp Primality FieldFacts ShamirFacts LimbPrim LimbGen FpLimbs LimbFacts.
 Open Scope Z_scope.
 
 (* the modulus the source declares is 2^128 + 12451 and is prime (Pratt certificate, checked by the kernel) *)
@@ -66,3 +66,80 @@ Proof.
   split; [exact two_inv_spec|]. destruct f_S_spec as (A & B & C). destruct rou_spec as (D & E & G & H).
   pose proof delta_spec. repeat split; assumption.
 Qed.
+
+(* ---- the limb-level code that ff_derive generates for `struct Fp` (model/LimbGen.v is written from the macro-expanded
+   source on every run; model/FpLimbs.v holds the loop-shaped helpers): on ALL operands - any three 64-bit limbs below
+   the modulus - every operation returns limbs below the modulus that represent, in Montgomery form, exactly what
+   big-integer arithmetic mod p gives.  `labs a` is the field element a limb triple stands for: lval a * 2^-192 mod p. *)
+Theorem C07_limbs_ring_ops : forall a b : limbs, lvalid a -> lvalid b ->
+  (lvalid (ladd a b) /\ labs (ladd a b) = fadd (labs a) (labs b)) /\
+  (lvalid (lsub a b) /\ labs (lsub a b) = fsub (labs a) (labs b)) /\
+  (lvalid (lmul a b) /\ labs (lmul a b) = fmul (labs a) (labs b)) /\
+  (lvalid (lneg a) /\ labs (lneg a) = fopp (labs a)) /\
+  (lvalid (ldouble a) /\ labs (ldouble a) = fdouble (labs a)) /\
+  (lvalid (lsquare a) /\ labs (lsquare a) = fsquare (labs a)).
+Proof.
+  intros a b Ha Hb. repeat split;
+    first [apply (ladd_correct a b Ha Hb) | apply (lsub_correct a b Ha Hb) | apply (lmul_correct a b Ha Hb)
+          | apply (lneg_correct a Ha) | apply (ldouble_correct a Ha) | apply (lsquare_correct a Ha)].
+Qed.
+(* the representation is injective: limb-wise equality (what `==` and ct_eq compare) is field equality *)
+Theorem C07_limbs_eq : forall a b : limbs, lvalid a -> lvalid b -> (leqb a b = true <-> labs a = labs b).
+Proof.
+  intros a b Ha Hb. rewrite leqb_spec. split; [intros ->; reflexivity|apply labs_inj; assumption].
+Qed.
+(* invert: the generated addition chain raises to p - 2, refuses exactly zero, and is the field inverse *)
+Theorem C07_limbs_invert : forall a : limbs, lvalid a ->
+  match linvert a with
+  | None => labs a = fzero
+  | Some r => lvalid r /\ labs a <> fzero /\ labs r = finv (labs a)
+  end.
+Proof. exact linvert_correct. Qed.
+Theorem C07_limbs_invert_chain : chain_exp invert_chain = p - 2 /\ chain_exp sqrt_chain = (p + 1) / 4.
+Proof. split; [exact invert_chain_exp|exact sqrt_chain_exp]. Qed.
+(* sqrt: candidate a^((p+1)/4) through the generated chain, accepted iff it squares to the argument *)
+Theorem C07_limbs_sqrt : forall a : limbs, lvalid a ->
+  match lsqrt a with
+  | None => fsqrt (labs a) = None
+  | Some r => lvalid r /\ fsqrt (labs a) = Some (labs r)
+  end.
+Proof. exact lsqrt_correct. Qed.
+(* Montgomery reduction itself: for any six limbs whose value is below p * 2^192 *)
+Theorem C07_limbs_mont_reduce : forall r0 r1 r2 r3 r4 r5,
+  wf64 r0 -> wf64 r1 -> wf64 r2 -> wf64 r3 -> wf64 r4 -> wf64 r5 ->
+  val6 r0 r1 r2 r3 r4 r5 < p * (W * W * W) ->
+  let r := gl_mont_reduce r0 r1 r2 r3 r4 r5 in
+  lwf r /\ lval r < p /\ exists K, lval r * (W * W * W) = val6 r0 r1 r2 r3 r4 r5 + K * p.
+Proof. exact mont_reduce_spec. Qed.
+(* to_repr writes the canonical integer of the represented element; from_repr accepts exactly the limbs below p and
+   returns the element they spell; From<u64>; one round of `random` *)
+Theorem C07_limbs_to_repr : forall a : limbs, lvalid a -> lvalid (lto_canon a) /\ lval (lto_canon a) = val (labs a).
+Proof. exact lto_canon_correct. Qed.
+Theorem C07_limbs_from_repr : forall r : limbs, lwf r ->
+  match lfrom_canon r with
+  | Some t => lval r < p /\ lvalid t /\ labs t = mkfp (lval r)
+  | None => p <= lval r
+  end.
+Proof. exact lfrom_canon_correct. Qed.
+Theorem C07_limbs_from_u64 : forall v, wf64 v -> lvalid (lfrom_u64 v) /\ labs (lfrom_u64 v) = mkfp v.
+Proof. exact lfrom_u64_correct. Qed.
+Theorem C07_limbs_random : forall w0 w1 w2 t, wf64 w0 -> wf64 w1 -> wf64 w2 ->
+  lrandom_round w0 w1 w2 = Some t -> lvalid t /\ t = (w0, w1, Z.land w2 1).
+Proof. exact lrandom_round_correct. Qed.
+(* the constants the macro computed from the three attributes mean what the PrimeField interface says *)
+Theorem C07_limbs_constants :
+  lval R = W3 mod p /\ lval R2 = (W3 * W3) mod p /\ (INV * 12451 + 1) mod W = 0 /\
+  lvalid TWO_INV /\ labs TWO_INV = f_two_inv /\ lvalid GENERATOR /\ labs GENERATOR = f_gen /\
+  lvalid ROOT_OF_UNITY /\ labs ROOT_OF_UNITY = f_rou /\ lvalid ROOT_OF_UNITY_INV /\ labs ROOT_OF_UNITY_INV = f_rou_inv /\
+  lvalid DELTA /\ labs DELTA = f_delta /\ GEN_S = f_S /\ GEN_MODULUS_BITS = f_num_bits /\
+  lval MODULUS_LIMBS = Params.modulus /\ Params.fp_limbs = 3%nat.
+Proof. exact limb_constants. Qed.
+(* non-vacuity: the premises are met by concrete limbs (ONE and TWO_INV in Montgomery form) *)
+Example C07_limbs_nonvacuous : lvalid lone /\ lvalid TWO_INV /\ lmul lone TWO_INV = TWO_INV /\ ladd TWO_INV TWO_INV = lone.
+Proof.
+  split; [exact lone_valid|]. split; [apply limb_constants|]. split; vm_compute; reflexivity.
+Qed.
+(* pow_vartime: square-and-multiply over the exponent's u64 words (least significant word first) *)
+Theorem C07_limbs_pow_vartime : forall (a : limbs) (exp : list Z), lvalid a -> Forall wf64 exp ->
+  lvalid (lpow_vartime a exp) /\ labs (lpow_vartime a exp) = fpow (labs a) (words_val exp).
+Proof. exact lpow_vartime_correct. Qed.
